@@ -358,7 +358,7 @@ func c08Scenario(c *Ctx, cs c08Case) (graph, rel []rxLabel, verdict string, deta
 		cr.res.Strobe()
 	}
 	waitQuiet := func(what string) string {
-		deadline := time.Now().Add(6 * time.Second)
+		deadline := newPatience(6 * time.Second)
 		for {
 			before := atomic.LoadInt64(&log.events)
 			time.Sleep(20 * time.Millisecond)
@@ -374,7 +374,7 @@ func c08Scenario(c *Ctx, cs c08Case) (graph, rel []rxLabel, verdict string, deta
 					return ""
 				}
 			}
-			if time.Now().After(deadline) {
+			if deadline.expired() {
 				return "no quiescence " + what
 			}
 		}
